@@ -51,6 +51,11 @@ def s_int(rng, v):
         return ('-' if v < 0 else '') + '0x' + hex(abs(v))[2:].upper()        # hex digits in upper case
     if k == 4:
         return ('-' if v < 0 else '') + rng.choice(['0X' + hex(abs(v))[2:], '0B' + bin(abs(v))[2:]])    # Python literal syntax
+    if rng.random() < 0.3:
+        # leading zeros up to a customary width (`0x0001`, `0x000000fa`, `0b00000101`): the same number
+        if k == 1:
+            return ('-' if v < 0 else '') + '0x' + hex(abs(v))[2:].rjust(rng.choice([2, 4, 8]), '0')
+        return ('-' if v < 0 else '') + '0b' + bin(abs(v))[2:].rjust(rng.choice([8, 16]), '0')
     return ('-' if v < 0 else '') + (hex(abs(v)) if k == 1 else bin(abs(v)))
 
 
